@@ -692,12 +692,17 @@ class Interp:
                 self.exec_block(s.orelse, env)
             return
         spec, ordinal = self.loop_spec(env, s)
+        no_spec = spec is None
         if spec is None:
             spec = LoopSpec()
         gen = self.gen_stack[-1] if self.gen_stack else None
         lid = f"{env.qualname}.loop{ordinal}"
         K = A.T(it.length)
         mods = _modified(s.body) | set(spec.havoc_extra) | _target_names(s.target)
+        if no_spec and (mods - _target_names(s.target)):
+            self._lossy_after = f"loop {ordinal} of {env.qualname} (line {s.lineno}) has no sidecar invariant: what it assigns ({', '.join(sorted(mods - _target_names(s.target))[:4])}) is unknown after it"
+        else:
+            self._lossy_after = None
         self._check_inv(spec, env, gen, z3.IntVal(0), lid + ".inv_init", "inv_init")
         self._havoc(env, mods, gen)
         j = z3.Int(fresh_name("j"))
@@ -718,6 +723,8 @@ class Interp:
         else:
             self.ctx.assume(j == K)
             env.vars["__loop_exit_j"] = j
+            if getattr(self, "_lossy_after", None) and not self.ctx.lossy:
+                self.ctx.lossy = self._lossy_after
             self.exec_block(s.orelse, env)
 
     def _inv_terms(self, spec, env, gen, j):
